@@ -292,6 +292,23 @@ func properties() map[string]*Property {
 		Extra:  []string{"spec-lemmas"},
 		Assume: specAssume,
 	}
+	c08 := simJobs("ReadUint64", "ReadInt64", "ReadUint32", "ReadInt32", "ReadInt", "ReadUint", "ReadFloat64", "fp.ParseJSONFloatPrefix", "fp.readFloat",
+		"ReadBool", "ReadNull", "ReadStringBytes", "ReadString", "appendRemainderOfString", "countWhitespace",
+		"skipValue", "skipFloatDec", "skipFloatExp", "SkipValue", "skipValueFast", "SkipValueFast")
+	c08 = append(c08, hostile("readNull", "readBool", "unescapeUnicodeChar", "getu4", "growBytesSliceCapacity", "errUnexpectedByteInString")...)
+	c08 = append(c08, wb("handleArrayValues", "handleObjectValues", "HandleArrayValues", "HandleObjectValues")...)
+	c08 = append(c08, simAs("travarr", "skipFloatDec", "skipFloatExp")...)
+	c08 = append(c08, simAs("travobj", "skipFloatDec", "skipFloatExp")...)
+	ps["C08"] = &Property{ID: "C08", Level: "proof",
+		Jobs:   c08,
+		Labels: []string{"C08"},
+		Extra:  []string{"spec-lemmas"},
+		Subset: "every offset a reader reports on success is the end offset of ONE specification run: for the integer, float, boolean, null and string readers, SkipValue and (on accepted input) SkipValueFast the contract is `err == nil ==> accepts(data) && p == endof(data)` over the same master transducer run (value, nesting limit 10000); HandleArrayValues / HandleObjectValues call the handler exactly at member starts with data[p:] starting at the member, resume at the exact end the handler reports (or validate the member themselves after 0), and return the container's end offset; the Decode functions behave as their readers (C12). NOT machine-checked: the induction M-compose over decoders written against the API (a quantification over programs, not over inputs), and the tree-equality half of the statement (no tree-valued contracts, see C03)",
+		Assume: append([]string{
+			"M-compose (not machine-checked): if every reader called at a value start returns that value's end in the enclosing run (the per-call contracts above; a value's own run and the enclosing run agree on its extent because the transducer's behaviour inside a value does not depend on the enclosing frames), and the traversals call handlers exactly at member starts and resume at the reported end, then by induction on the nesting of calls a decoder that passes offsets through unchanged ends where direct decoding ends, and a decoder that reads every member with validating readers fails whenever the document is malformed",
+			"well-behaved handler contract as in C07",
+		}, specAssume...),
+	}
 	ps["C11"] = &Property{ID: "C11", Level: "proof",
 		Jobs:   simJobs("skipValueFast", "SkipValueFast", "skipValue", "skipFloatDec", "skipFloatExp", "SkipValue"),
 		Labels: []string{"C11", "C02"},
